@@ -1,16 +1,28 @@
-(* Evaluation entry points for C04 cases: one call of tx.miter.
+(* Evaluation entry points for C04 cases: a few calls of tx.miter that share their startpoint / endpoint containers.
    agree: the model (Model/Miter.v, through the API model) returns the recorded circuit / exception.
    holds: the property evaluated on the recorded result: inputs are the tied startpoints, `sat` is the only output,
    and for every valuation of the free nodes `sat` is the disjunction of the endpoint differences, the two copies
-   compute c0 / c1 on their own startpoints, tied startpoints are shared and untied ones are independent. *)
+   compute c0 / c1 on their own startpoints, tied startpoints are shared and untied ones are independent; and the call leaves the
+   caller's startpoint / endpoint collections as they were (So' / Eo' = their content after the call), so that the same choice
+   means the same thing on the next call. *)
 From stdpp Require Import strings gmap sets fin_sets.
 From CG Require Export Base.Cases Model.Miter Model.FastEval.
 Open Scope string_scope.
 
-Inductive case := CMiter (Ca : Circuit) (Cbo : option Circuit) (So Eo : option (list string)) (obs : res Circuit).
+Inductive call := Call (Ca : Circuit) (Cbo : option Circuit) (So Eo : option (list string)) (obs : res Circuit)
+                         (So' Eo' : option (list string)).
+Inductive case := CMiter (l : list call).
 
-Definition agree (k : case) : bool :=
-  let 'CMiter Ca Cbo So Eo obs := k in bool_decide (miter Ca Cbo So Eo = obs).
+Definition agree1 (k : call) : bool :=
+  let 'Call Ca Cbo So Eo obs _ _ := k in bool_decide (miter Ca Cbo So Eo = obs).
+Definition agree (k : case) : bool := let 'CMiter l := k in forallb agree1 l.
+
+(* the collection the caller passed still holds the same elements after the call *)
+Definition same_choice (o o' : option (list string)) : bool :=
+  match o, o' with
+  | None, None => true
+  | Some l, Some l' => bool_decide (length l = length l') && bool_decide ((list_to_set l : gset string) = list_to_set l')
+  | _, _ => false end.
 
 Definition smap (f : string → string) (s : gset string) : gset string := set_map f s.
 Definition same_attrs (f : string → string) (P R : circuit) : bool :=
@@ -28,8 +40,9 @@ Definition precond (Ca Cb : Circuit) (S E : list string) : bool :=
   bool_decide (size (sS ∪ smap (pre "c0") (dom ga) ∪ smap (pre "c1") (dom gb) ∪ {["sat"]} ∪ smap (pre "dif") sE)
                = (size sS + size (dom ga) + size (dom gb) + 1 + size sE)%nat).
 
-Definition holds (k : case) : bool :=
-  let 'CMiter Ca Cbo So Eo obs := k in
+Definition holds1 (k : call) : bool :=
+  let 'Call Ca Cbo So Eo obs So' Eo' := k in
+  same_choice So So' && same_choice Eo Eo' &&
   let Cb := second Ca Cbo in
   let S := miter_S Ca Cb So in let E := miter_E Ca Cb Eo in
   let sS : gset string := list_to_set S in let sE : gset string := list_to_set E in
@@ -53,3 +66,4 @@ Definition holds (k : case) : bool :=
      else true)
   | _ => false
   end.
+Definition holds (k : case) : bool := let 'CMiter l := k in forallb holds1 l.
